@@ -10,6 +10,9 @@ TRUST = ("Trusted: Go type checker and go/ssa (x/tools v0.29.0), CHA/VTA call gr
 
 # id -> (technique, level text, design ref)   -- only properties whose check exists are listed here
 CLAIMS = {
+    "C06": ("emission-pairing analysis over go/ssa: every append to the learned-clause store paired with a certificate write of the same clause, dominance of unit emission over top-level binding, path check that the empty clause precedes every Unsat conclusion, effect analysis of Certified-only regions, payload comparison of the stdout and channel forms",
+            "Decides completeness and neutrality of certificate emission on every path (everything learned is written, the empty clause is written before Unsat is concluded, the flag cannot change solver state, both output forms agree). Necessary for a valid refutation; that each written clause is RUP is not decided.",
+            "DESIGN.md section 5, C06"),
     "C09": ("table-agreement analysis over go/ssa: per-variable fields discovered from constructor allocations and Var/Lit indexing, growth sites and ordering checked in every function that raises the variable count; dominance check of announce-before-use; constant-range check of status stores",
             "Decides that every per-variable table grows (by the right amount, before the count is raised, with derived views rebuilt) whenever a new variable appears, that AppendClause announces a variable before using it, and that Unsat is absorbing. Necessary conditions of incremental solving; equivalence with solving from scratch is not decided.",
             "DESIGN.md section 5, C09"),
